@@ -186,6 +186,34 @@ impl Visitor for CrossW {
 pub fn handle(args: &[&str]) -> Option<String> {
     match args {
         ["list"] => Some(format!("ok {}", ZOO_TYPES.join(","))),
+        // `charset <utf8|ia5|num|print|vis> <lo> <hi>`: validity of every code point lo..hi (exclusive)
+        // according to `Charset::is_valid`, as a 0/1 string (surrogates count as invalid scalar values: `x`)
+        ["charset", cs, lo, hi] => {
+            use asn1rs::model::asn::Charset;
+            let cs = match *cs {
+                "utf8" => Charset::Utf8,
+                "ia5" => Charset::Ia5,
+                "num" => Charset::Numeric,
+                "print" => Charset::Printable,
+                "vis" => Charset::Visible,
+                _ => return None,
+            };
+            let (lo, hi): (u32, u32) = (lo.parse().ok()?, hi.parse().ok()?);
+            let mut s = String::with_capacity((hi - lo) as usize);
+            for cp in lo..hi {
+                s.push(match char::from_u32(cp) {
+                    None => 'x',
+                    Some(c) => {
+                        if cs.is_valid(c) {
+                            '1'
+                        } else {
+                            '0'
+                        }
+                    }
+                });
+            }
+            Some(format!("ok {s}"))
+        }
         ["many", rest @ ..] => {
             let sx = parse_args(rest)?;
             if sx.len() % 3 != 0 || sx.is_empty() {
